@@ -51,6 +51,8 @@ def run(run: Run):
     for bi in range(nb):
         T = 1 + bi % 6
         n = rng.choice([2, 2, 3, 4, 8]) if bi % 5 else 2
+        if bi in (3, 8) or (not quick and bi % 9 == 4):
+            n = rng.choice([34, 40, 70])            # every position of a large chunk must be bound, not only the leading ones
         mems = make_batch(rng, n, T, quick)
         batches.append((bi, T, n, mems))
     # round 1: honest batches -> observe the weights
@@ -82,7 +84,7 @@ def run(run: Run):
         derived, verifies, tags = [], [], []
         amode = VMODES[bi % 2]
         base_vm = [gen.vmember(mm, i) for i, mm in enumerate(mems)]
-        pairs = [(0, 1)] + ([(rng.randrange(n), rng.randrange(n))] if n > 2 else [])
+        pairs = [(0, 1)] + ([(rng.randrange(n), rng.randrange(n))] if n > 2 else []) + ([(n - 2, n - 1), (32, 33), (rng.randrange(32, n), rng.randrange(32, n))] if n > 33 else [])
         for (i, j) in pairs:
             if i == j:
                 continue
